@@ -32,12 +32,12 @@ def run_cases(cases, res, stratum):
         try:
             x = A.mk(fx, np, *fxm, cx, rounding=rnd, op_method=method)
             y = A.mk(fx, np, *fym, cy, rounding=rnd, op_method=method)
-            md = x % y
+            md = x % y if 1 <= wmod_of(fxm, fym) <= 53 else None
             fl = x // y if 1 <= wfl_of(fxm, fym) <= 53 else None
             q = x / y if (wq_of(fxm, fym) <= 53 and fl is not None) else None      # (x/y only when ITS result word is within the domain)
-            rec = fl * y + md if (fl is not None and x.n_word + y.n_word <= 40) else None
+            rec = fl * y + md if (fl is not None and md is not None and x.n_word + y.n_word <= 40) else None
             obs = {'q': (A.fmt_of(q), lib.codes_of(q)[0], lib.status3(q)) if q is not None else None, 'fl': (A.fmt_of(fl), lib.codes_of(fl)[0], lib.status3(fl)) if fl is not None else None,
-                   'md': (A.fmt_of(md), lib.codes_of(md)[0], lib.status3(md)), 'rec': (Fraction(lib.codes_of(rec)[0]) / Fraction(2) ** rec.n_frac) if rec is not None else None}
+                   'md': (A.fmt_of(md), lib.codes_of(md)[0], lib.status3(md)) if md is not None else None, 'rec': (Fraction(lib.codes_of(rec)[0]) / Fraction(2) ** rec.n_frac) if rec is not None else None}
         except Exception as e:
             res.fail(case, 'C09: division family raised %s' % lib.exc_name(e), got=str(e)[:200]); continue
         pend.append((case, obs)); reqs.append([43] + e_fmt(*fxm) + [cx] + e_fmt(*fym) + [cy])
@@ -54,7 +54,7 @@ def run_cases(cases, res, stratum):
         qv = xv / yv
         res.count(stratum, key=repr(case), nontrivial=not exact)
         res.sample(case)
-        (fm, cm, sm) = obs['md']
+        (fm, cm, sm) = obs['md'] if obs['md'] is not None else (gm, zm, (False, False, False))
         (ffl, cfl, sfl) = obs['fl'] if obs['fl'] is not None else (gf, zfl, (False, False, False))
         (fq, cq, sq) = obs['q'] if obs['q'] is not None else (gq, zf, (False, False, False))
         if obs['rec'] is None: obs['rec'] = xv
@@ -125,15 +125,25 @@ def shard(shard, nshards, rng, tier, extra):
         def g():
             nw = rng.choice([8, 20, 30, 41, 48, 55, 60, rng.randint(1, 62)]); return (rng.random() < 0.5, nw, rng.randint(0, nw))
         fxm, fym = g(), g()
-        if rng.random() < 0.35:
+        if rng.random() < 0.3:
+            # one signed and one unsigned operand whose aligned raw values need 54..63 bits (NumPy would promote the pair to float64)
+            # (only x//y has a result word within 53 bits there; x%y and x/y are skipped)
+            nwx = rng.randint(54, 62); nfy = rng.randint(0, 2); nfx = nwx - 49 + nfy + rng.randint(0, 3); fxm = (rng.random() < 0.5, nwx, nfx); nwy = rng.randint(max(2, nfy), 24); fym = (not fxm[0], nwy, nfy)
+        elif rng.random() < 0.35:
             # two unsigned operands, one with a wide integer part, the other with many fraction bits: the modulo's own format is
             # narrow (min of the integer lengths) although the aligned operands need more than 64 bits
             nwx = rng.randint(35, 62); fxm = (False, nwx, rng.randint(0, 6)); nwy = rng.randint(2, 30); fym = (False, nwy, rng.randint(max(0, nwy - 6), nwy))
             if rng.random() < 0.5: fxm, fym = fym, fxm
-        if not (1 <= wmod_of(fxm, fym) <= 53): continue
+        if not (1 <= wmod_of(fxm, fym) <= 53 or 1 <= wfl_of(fxm, fym) <= 53): continue
         # (x//y and x/y are checked only when their own result words are within the domain)
         cx = A.interesting_codes(rng, fxm[0], fxm[1], 1)[0]; cy = A.interesting_codes(rng, fym[0], fym[1], 1)[0]
         if cy == 0: continue
+        if rng.random() < 0.4 and fxm[2] >= fym[2]:
+            # a dividend next to an exact multiple of the divisor (on the common fraction length): the floor changes with the last bit
+            Y = cy << (fxm[2] - fym[2]); lo, hi = S.fmt_bounds(fxm[0], fxm[1])
+            q = rng.randint(lo // abs(Y) if Y else 0, hi // abs(Y)) if abs(Y) <= hi else 0
+            cand = q * Y + rng.choice([0, 1, -1, 2, abs(Y) - 1])
+            if lo <= cand <= hi and abs(cand) >= 2**53: cx = cand
         # the value ('repr') method computes on the operands' float values: only for operands that are exact doubles
         meth = rng.choice(['raw', 'repr']) if max(fxm[1], fym[1]) <= 53 else 'raw'
         cases.append((fxm, cx, fym, cy, meth, rng.choice(['trunc', 'floor', 'around'])))
